@@ -495,6 +495,33 @@ func runScripted(c core.Case) core.Result {
 		family = "oldreader"
 		earlyLeft = 1 + r.Intn(2)
 	}
+	if family == "reopen-reader" {
+		// build some state, close, reopen, and begin long-lived readers BEFORE the first commit of the
+		// new incarnation: their snapshot timestamp is the recovered maximum, which recovery has
+		// already marked done in the read watermark
+		family = "oldreader"
+		if p := eng.Safely(func() {
+			for i := 0; i < 3+r.Intn(6); i++ {
+				w := s.begin(true)
+				s.open = append(s.open, w)
+				s.write(w, r.Intn(nk), false)
+				if r.Intn(2) == 0 {
+					s.write(w, r.Intn(nk), r.Intn(4) == 0)
+				}
+				s.finish(w, "commit")
+			}
+			if r.Intn(2) == 0 {
+				s.db.VerifDrain()
+			}
+			s.reopen()
+			ro := s.begin(false)
+			ro.pinned = true
+			s.open = append(s.open, ro)
+		}); p != "" {
+			s.fail(c.Str("prop", "C05"), "panic", "engine panicked: %s", p)
+			return res
+		}
+	}
 	var pre *sTxn
 	if family == "oldreader" && earlyLeft > 0 {
 		// an even older reader holds the read watermark back; it ends after the early commits, which
@@ -545,12 +572,18 @@ func runScripted(c core.Case) core.Result {
 	p := eng.Safely(func() {
 		for step := 0; step < steps && res.Verdict == ""; step++ {
 			if family == "oldreader" && step == pinSteps {
-				for _, t := range s.open {
+				for _, t := range append([]*sTxn{}, s.open...) {
 					if t.pinned {
 						t.pinned = false
-						s.write(t, r.Intn(nk), false)
-						s.finish(t, "commit")
-						break
+						for k := 0; k < nk; k++ {
+							s.get(t, k) // the long-lived transaction still reads its snapshot
+						}
+						if t.update {
+							s.write(t, r.Intn(nk), false)
+							s.finish(t, "commit")
+						} else {
+							s.finish(t, "discard")
+						}
 					}
 				}
 				continue
@@ -596,7 +629,7 @@ func runScripted(c core.Case) core.Result {
 				}
 			case x < 91:
 				s.misuseEmptyKey()
-			case x < 96:
+			case x < 96 || (family == "oldreader" && x < 99 && r.Intn(2) == 0):
 				s.db.VerifDrain()
 				s.stat["drains"]++
 				s.logf("drain")
